@@ -98,6 +98,10 @@ pub fn families(tier: &str, profile: &str) -> Vec<(Arc<dyn Family>, Option<Vec<(
         v.push((family_b_trunc(all_seeds(true, 100_000), 3), None));
         v.push((family_b_struct(), None));
         v.push((family_b1(conformant_seeds(), if thorough { 2 } else { 1 }), None));
+        if thorough {
+            v.push((family_e(false), None));
+            v.push((family_e(true), None));
+        }
         return v;
     }
     let body = if thorough { 40 } else { 16 };
@@ -108,6 +112,8 @@ pub fn families(tier: &str, profile: &str) -> Vec<(Arc<dyn Family>, Option<Vec<(
     v.push((family_b_trunc(all_seeds(true, 100_000), 3), None));
     v.push((family_b_struct(), None));
     v.push((family_d(), None));
+    v.push((family_e(false), None));
+    v.push((family_e(true), None));
     let (f, labels) = ladder_family(if thorough { None } else { Some(8) }, false);
     v.push((f, Some(labels)));
     if thorough {
